@@ -40,10 +40,11 @@ Definition Psequential (f : nat) (s : asg) : Prop :=
 
 (** * the guard: a factor without a complex window whose crossings (if any) have no preamble *)
 Lemma seq_guard f : constraint_f1 fb (FSequential f) = true ->
-  isact fb f = true /\ is_complex fb f = false /\ factor_preamble_size fb f = COk 0.
+  isact fb f = true /\ is_complex fb f = false /\ factor_preamble_size fb f = COk 0 /\ sustain_of fb f = 1.
 Proof.
-  cbn [constraint_f1]. rewrite !andb_true_iff. intros [[A B] C]. apply negb_true_iff in B.
-  split; [exact A|]. split; [exact B|]. destruct (factor_preamble_size fb f) as [[|n]|e]; try discriminate. reflexivity.
+  cbn [constraint_f1]. rewrite !andb_true_iff. intros [[[A B] D] C]. apply negb_true_iff in B. apply Nat.eqb_eq in D.
+  split; [exact A|]. split; [exact B|]. split; [|exact D].
+  destruct (factor_preamble_size fb f) as [[|n]|e]; try discriminate. reflexivity.
 Qed.
 
 Lemma pre_of_zero f : factor_preamble_size fb f = COk 0 -> pre_of fb f = 0.
@@ -98,13 +99,13 @@ Proof.
     rewrite eval_seq_lit, (H t l Ht Hl). apply eqb_reflx.
 Qed.
 
-Lemma apply_sequential_eq f fresh : isact fb f = true -> factor_preamble_size fb f = COk 0 ->
+Lemma apply_sequential_eq f fresh : isact fb f = true -> factor_preamble_size fb f = COk 0 -> sustain_of fb f = 1 ->
   apply_constraint fb (FSequential f) fresh =
   let '(cls, fresh') := cnf_fn (seq_lits f 0) fresh in
   COk {| ct_fresh := fresh'; ct_clauses := cls; ct_requests := [] |}.
 Proof.
-  intros Hf Hfps. cbn [apply_constraint]. unfold apply_sequential.
-  rewrite Hfps, (f1_sustain fb (in_f1_facts fb HF1) f). cbn [cbind].
+  intros Hf Hfps Hsu. cbn [apply_constraint]. unfold apply_sequential.
+  rewrite Hfps, Hsu. cbn [cbind].
   pose proof (f1_nlevels_pos fb HF1 f (f1_act_lt fb HF1 f Hf)) as Hn.
   replace (nlevels fb f =? 0) with false by (symmetry; apply Nat.eqb_neq; lia).
   replace (1 =? 0) with false by reflexivity. cbn [orb]. rewrite andb_false_r.
@@ -117,8 +118,8 @@ Lemma step_sequential f :
   forall fresh ct, (GZ < fresh)%Z -> apply_constraint fb (FSequential f) fresh = COk ct ->
   exists ext, DefinesA (fresh - 1) (ct_fresh ct - 1) (ct_clauses ct) (ct_requests ct) ext (Psequential f).
 Proof.
-  intros Hc0 fresh ct Hfr E. destruct (seq_guard f Hc0) as (Hc & Hcx & Hfps).
-  rewrite (apply_sequential_eq f fresh Hc Hfps) in E.
+  intros Hc0 fresh ct Hfr E. destruct (seq_guard f Hc0) as (Hc & Hcx & Hfps & Hsu).
+  rewrite (apply_sequential_eq f fresh Hc Hfps Hsu) in E.
   destruct (cnf_fn (seq_lits f 0) fresh) as [cls fresh'] eqn:Ecnf. inversion E. subst ct. clear E.
   cbn [ct_fresh ct_clauses ct_requests].
   assert (HGZ : (0 <= GZ)%Z) by (unfold F1Kinds.GZ, zn; lia).
@@ -134,8 +135,8 @@ Qed.
 Lemma sequential_total f fresh :
   constraint_f1 fb (FSequential f) = true -> exists ct, apply_constraint fb (FSequential f) fresh = COk ct.
 Proof.
-  intros Hc0. destruct (seq_guard f Hc0) as (Hc & Hcx & Hfps).
-  rewrite (apply_sequential_eq f fresh Hc Hfps).
+  intros Hc0. destruct (seq_guard f Hc0) as (Hc & Hcx & Hfps & Hsu).
+  rewrite (apply_sequential_eq f fresh Hc Hfps Hsu).
   destruct (cnf_fn (seq_lits f 0) fresh) as [cls fresh']. eauto.
 Qed.
 
@@ -151,12 +152,12 @@ Theorem sequential_sem s q f :
   onehot fb s q -> constraint_f1 fb (FSequential f) = true ->
   (Psequential f s <-> forallb (constraint_ok (code_sem fb) q) (code_constraint fb (FSequential f)) = true).
 Proof.
-  intros (Hq & Hr & Hcell & Hbit & _) Hc0. destruct (seq_guard f Hc0) as (Hc & Hcx & Hfps).
+  intros (Hq & Hr & Hcell & Hbit & _) Hc0. destruct (seq_guard f Hc0) as (Hc & Hcx & Hfps & Hsu).
   assert (Hap : forall t, lappl fb f t = true) by (intros t; now apply (lappl_simple fb HF1)).
   pose proof (f1_act_lt fb HF1 f Hc) as Hcn. pose proof (f1_nlevels_pos fb HF1 f Hcn) as Hn.
   cbn [code_constraint forallb]. rewrite andb_true_r.
   unfold constraint_ok, mk_c. cbn [k_kind k_factor k_level k_windows].
-  rewrite code_nlevels, (pre_of_zero f Hfps), (f1_sustain fb (in_f1_facts fb HF1) f).
+  rewrite code_nlevels, (pre_of_zero f Hfps), Hsu.
   change (s_trials (code_sem fb)) with (T fb).
   rewrite forallb_forall. unfold Psequential. split.
   - intros H t Ht. apply in_seq in Ht.
